@@ -416,3 +416,114 @@ func Equal(a, b *Value) bool {
 	}
 	return true
 }
+
+// MaxDeclaredCount parses b as a sequence of fields (type, id, value)* the way a tree-building
+// decoder without negative-size checks would (sizes read unsigned, no depth limit) and returns the
+// largest container element count such a decoder meets before the first truncation or unknown type.
+// It is used only to cap inputs for entry points that allocate the declared element count.
+func MaxDeclaredCount(b []byte) int64 {
+	var max int64
+	var val func(b []byte, t int8, depth int) (int, bool)
+	val = func(b []byte, t int8, depth int) (int, bool) {
+		if depth > 4096 {
+			return 0, false
+		}
+		if n := FixedSize(t); n > 0 {
+			return n, len(b) >= n
+		}
+		switch t {
+		case STRING:
+			if len(b) < 4 {
+				return 0, false
+			}
+			sz := int64(be32(b))
+			if sz >= 1<<31 || int64(len(b)) < 4+sz {
+				return 0, false
+			}
+			return 4 + int(sz), true
+		case STRUCT:
+			i := 0
+			for {
+				if len(b) < i+1 {
+					return 0, false
+				}
+				ft := int8(b[i])
+				i++
+				if ft == STOP {
+					return i, true
+				}
+				if len(b) < i+2 {
+					return 0, false
+				}
+				i += 2
+				n, ok := val(b[i:], ft, depth+1)
+				if !ok {
+					return 0, false
+				}
+				i += n
+			}
+		case MAP:
+			if len(b) < 6 {
+				return 0, false
+			}
+			kt, vt, sz := int8(b[0]), int8(b[1]), int64(be32(b[2:]))
+			if sz > max {
+				max = sz
+			}
+			i := 6
+			for j := int64(0); j < sz; j++ {
+				n, ok := val(b[i:], kt, depth+1)
+				if !ok {
+					return 0, false
+				}
+				i += n
+				n, ok = val(b[i:], vt, depth+1)
+				if !ok {
+					return 0, false
+				}
+				i += n
+				if n == 0 && i >= len(b) {
+					return 0, false
+				}
+			}
+			return i, true
+		case SET, LIST:
+			if len(b) < 5 {
+				return 0, false
+			}
+			et, sz := int8(b[0]), int64(be32(b[1:]))
+			if sz > max {
+				max = sz
+			}
+			i := 5
+			for j := int64(0); j < sz; j++ {
+				n, ok := val(b[i:], et, depth+1)
+				if !ok {
+					return 0, false
+				}
+				i += n
+			}
+			return i, true
+		}
+		return 0, false
+	}
+	i := 0
+	for i < len(b) {
+		ft := int8(b[i])
+		i++
+		if ft == STOP {
+			// a decoder may treat this as a 1-byte field header and then fail on type 0
+			return max
+		}
+		if len(b) < i+2 {
+			return max
+		}
+		i += 2
+		n, ok := val(b[i:], ft, 0)
+		if !ok {
+			return max
+		}
+		i += n
+	}
+	return max
+}
